@@ -1,4 +1,5 @@
 pub mod normalize;
+pub mod receiver;
 pub mod values;
 pub mod wire;
 
@@ -38,6 +39,7 @@ pub fn by_name(name: &str) -> Option<Box<dyn Suite>> {
         "values" => Box::new(values::Values),
         "normalize" => Box::new(normalize::Normalize),
         "wire" => Box::new(wire::Wire),
+        "receiver" => Box::new(receiver::Receiver),
         _ => return None,
     })
 }
